@@ -45,6 +45,8 @@ def eval_tree_f64(e):
         return eval_tree_f64(e["e"])
     if t == "neg":
         return -eval_tree_f64(e["e"])
+    if t == "pos":
+        return eval_tree_f64(e["e"])
     l, r = eval_tree_f64(e["l"]), eval_tree_f64(e["r"])
     if e["op"] == "+":
         return l + r
@@ -179,6 +181,8 @@ def rand_tree(rng, depth):
         return {"t": "par", "e": rand_tree(rng, depth - 1)}
     if x < 0.22:
         return {"t": "neg", "e": rand_tree(rng, depth - 1)}
+    if x < 0.26:
+        return {"t": "pos", "e": rand_tree(rng, depth - 1)}
     return {"t": "bin", "op": rng.choice("+-*/"), "l": rand_tree(rng, depth - 1), "r": rand_tree(rng, depth - 1)}
 
 
@@ -194,6 +198,8 @@ def unparse(e, p, right):
         return [{"k": "lp"}] + unparse(e["e"], 0, False) + [{"k": "rp"}]
     if e["t"] == "neg":
         return [{"k": "op", "c": "-"}] + unparse(e["e"], 3, False)
+    if e["t"] == "pos":
+        return [{"k": "op", "c": "+"}] + unparse(e["e"], 3, False)
     need = prec(e["op"]) < p or (right and prec(e["op"]) == p)
     inner = unparse(e["l"], prec(e["op"]), False) + [{"k": "op", "c": e["op"]}] + unparse(e["r"], prec(e["op"]), True)
     return [{"k": "lp"}] + inner + [{"k": "rp"}] if need else inner
@@ -210,6 +216,8 @@ def bound_eval(e):
         return bound_eval(e["e"])
     if e["t"] == "neg":
         return qmirror.neg(bound_eval(e["e"]))
+    if e["t"] == "pos":
+        return bound_eval(e["e"])
     v = qmirror.apply(e["op"], bound_eval(e["l"]), bound_eval(e["r"]))
     if abs(v[0]) > 30000 or v[1] > 30000:
         raise qmirror.Overflow()
